@@ -45,6 +45,9 @@ type C05Case struct {
 	Noise   bool           `json:"noise,omitempty"`
 	// KeyFault: the response-signing key retrieval fails while the request is served (the IdP reads it to build its own descriptor)
 	KeyFault string `json:"key_fault,omitempty"`
+	// Hist: the sending service provider was registered without signing requirement and / or with another certificate (the
+	// rogue key's) at first, used the IdP, and was then re-registered as the spec says.
+	Hist *History `json:"history,omitempty"`
 }
 
 var c05PostMutations = []Defect{
@@ -96,6 +99,16 @@ func genC05Case(t *rapid.T) C05Case {
 	c.Noise = rapid.IntRange(0, 2).Draw(t, "noise") == 0
 	if rapid.IntRange(0, 7).Draw(t, "keyfault") == 0 {
 		c.KeyFault = rapid.SampledFrom([]string{"error", "nil", "emptycert"}).Draw(t, "keyfaultkind")
+	}
+	if rapid.IntRange(0, 3).Draw(t, "history") == 0 {
+		c.Hist = genHistory(t, spec, c.SP, func(e *world.SPSpec) {
+			if rapid.Bool().Draw(t, "earlier-unsigned") {
+				e.AuthnRequestsSigned = rapid.SampledFrom([]string{A, "false"}).Draw(t, "earlier-flag")
+			}
+			if rapid.Bool().Draw(t, "earlier-key") {
+				e.KeyNames = []string{"rogue"}
+			}
+		}, false)
 	}
 	n := rapid.SampledFrom([]int{0, 1, 1, 1, 2}).Draw(t, "nmut")
 	cat := c05PostMutations
@@ -555,9 +568,10 @@ func c05Run(c C05Case) c05Outcome {
 	if c.Noise {
 		wspec = withNoise(wspec)
 	}
-	w := mustBuild(wspec)
+	w := buildWithHistory(wspec, c.Hist, c.Host)
 	if c.Noise {
 		runNoise(w, wspec)
+		w.Store.ResetLog()
 	}
 	if c.KeyFault != "" {
 		w.Store.SetFaults([]world.Fault{{Op: "GetResponseSigningKey", Occurrence: 0, Kind: c.KeyFault}})
